@@ -88,8 +88,10 @@ Justified(r) ==
   \/ hookStopped
   \/ CapPossiblyReached /\ (cfg.fixed => r.nearMin)
   \/ ~cfg.fixed /\ r.stopOK /\ (cfg.sc => r.nearMin)
-ReturnClauses(r) == [start |-> r.startOK, cons |-> (cfg.hasCons => r.consOK), justified |-> Justified(r)]
-ReturnG(r) == st = "running" /\ (r.err \/ (r.startOK /\ (cfg.hasCons => r.consOK) /\ Justified(r)))   \* (R), (E)
+(* feasible: the caller's re-evaluation accepts p and the callback's latest answer at p was not "violated" *)
+Feasible(r) == cfg.hasCons => (r.consOK /\ [p |-> r.p, res |-> FALSE] \notin consAt)
+ReturnClauses(r) == [running |-> st = "running", start |-> r.startOK, cons |-> Feasible(r), justified |-> Justified(r)]
+ReturnG(r) == st = "running" /\ (r.err \/ (r.startOK /\ Feasible(r) /\ Justified(r)))   \* (R), (E)
 
 (* ----------------------------- effects -------------------------------- *)
 BeginE(c) == /\ st' = "running" /\ cfg' = c /\ evalOf' = {} /\ consAt' = {} /\ nEvals' = 0 /\ nHooks' = 0
@@ -101,8 +103,8 @@ EvalE(p, y, g) == /\ evalOf' = {e \in evalOf : e.p # p} \cup {[p |-> p, y |-> y,
                   /\ UNCHANGED <<st, cfg, consAt, nHooks, hookStopped, ret>>
 HookE(stop) == /\ nHooks' = nHooks + 1 /\ hookStopped' = stop
                /\ UNCHANGED <<st, cfg, evalOf, consAt, nEvals, ret>>
-ReturnE(r) == /\ st' = "returned" /\ ret' = r
-              /\ UNCHANGED <<cfg, evalOf, consAt, nEvals, nHooks, hookStopped>>
+ReturnE(r) == /\ st' = "returned" /\ ret' = r /\ evalOf' = {} /\ consAt' = {}
+              /\ UNCHANGED <<cfg, nEvals, nHooks, hookStopped>>
 
 (* ----------------------------- actions -------------------------------- *)
 Begin(c)              == BeginG /\ BeginE(c)
